@@ -465,12 +465,27 @@ where
                     }
                 }
 
+                // A prepared allocation (like that of a `MutBumpVec`) may still live in the original chunk
+                // and will be committed there, so on failure the original chunk must remain the current one.
+                // The failure can be an `Err` or, with the panicking error behavior, an unwinding panic.
+                struct OnDrop<F: FnMut()>(F);
+
+                impl<F: FnMut()> Drop for OnDrop<F> {
+                    fn drop(&mut self) {
+                        (self.0)();
+                    }
+                }
+
+                let restore_original_chunk = OnDrop(|| self.chunk.set(original_chunk.raw));
+
                 // there is no chunk that fits, we need a new chunk
-                chunk.append_for(*layout).inspect_err(|_| {
-                    // A prepared allocation (like that of a `MutBumpVec`) may still live in the original chunk
-                    // and will be committed there, so on failure the original chunk must remain the current one.
-                    self.chunk.set(original_chunk.raw);
-                })
+                let result = chunk.append_for(*layout);
+
+                if result.is_ok() {
+                    core::mem::forget(restore_original_chunk);
+                }
+
+                result
             }
         }?;
 
